@@ -11,7 +11,7 @@ RULE = ("cases: symmetric matrices by member family {pd, singular psd, slightly 
         "contiguous and transposed-view inputs; also DenseLinearOperator.cholesky(). oracle per member: L L^T - A_b = delta_b I with "
         "delta_b in {0} U {jitter 10^i}, delta_b = 0 iff torch's own factorization succeeds, the previous level fails for that member, "
         "warning iff some delta > 0, NanError / NotPSDError exactly when expected, factor finite and triangular, input untouched. "
-        "distinct key = (member-family multiset, dtype, upper, outcome, jitter source)")
+        "distinct key = (member-family multiset, dtype, upper, outcome, jitter source) [added: jitter taken from settings.cholesky_jitter with only the value for the matrix's own dtype given]")
 ASSUMPTIONS = ["torch.linalg.cholesky_ex on a single member decides 'numerically positive definite'",
                "jitter levels are jitter*10^i added cumulatively exactly as documented"]
 REQUIRED_STATS = ("calls",)
